@@ -252,6 +252,10 @@ def records_of(sim):
 
 def run_spec(S, oracle_classes, wall=20, keep=False):
     """Run spec S under the given oracle classes.  Returns a result dict (JSON-able unless keep)."""
+    if any(x.get("same_as") is not None for x in S.get("servers", [])):
+        from .gen import normalise_shared
+        S = dict(S, servers=[dict(x) for x in S["servers"]])
+        normalise_shared(S)
     R = Run(S)
     res = {"status": "ok", "prop": None, "clause": None, "msg": "", "step": 0}
     tap = DrawTap(S["draws"], R.log) if S.get("draws") is not None else None
